@@ -608,6 +608,12 @@ def oracle(case, obs, messages, flags):
                     if want is not None and qq[1] != want:
                         fail(i, 'a changed choice list keeps the old value when still valid and otherwise falls back to the new default',
                              'choices-change:' + key, 'old value %r, new kind %r, new value %r, expected %r' % (p[1], qq[0], qq[1], want))
+                    elif want == p[1] and not parent_touched and key not in Pcd['aug'] and (qq[3] != p[3] or qq[2] != p[2]):
+                        # the value is still valid: what get_option() returns must not change either
+                        fail(i, 'a changed choice list keeps the old value when still valid (effective value, as get_option returns it)',
+                             'choices-change-effective:' + key,
+                             'the choices of %s changed, its value %r is still valid, but it now reads %r (before %r; yielding %s -> %s)'
+                             % (key, p[1], qq[3], p[3], p[2], qq[2]))
                     continue
                 if qq[1] != p[1]:
                     fail(i, 'every option keeps the value it has', 'value-changed:' + key,
@@ -656,7 +662,11 @@ def oracle(case, obs, messages, flags):
         for key in sorted(given):
             val, kd = given[key]
             dk = decls.get(key)
-            if kind_of_key(Qcd, key) != kd or (key not in Qcd['opts'] and key not in Qcd['persub']) \
+            kq = kind_of_key(Qcd, key)
+            if kq is not None and kq != kd and kq[0] == kd[0] and satisfies(kq, val) \
+                    and not (dk is not None and decl_kind(dk)[0] != kd[0]):
+                given[key][1] = kd = kq      # the choices changed, the user's value is still valid: it stays
+            if kq != kd or (key not in Qcd['opts'] and key not in Qcd['persub']) \
                     or (dk is not None and decl_kind(dk)[0] != kd[0]):
                 del given[key]
                 continue
